@@ -13,12 +13,12 @@ cmake -S "$WT" -B "$BD" -G Ninja -DCMAKE_BUILD_TYPE=RelWithDebInfo -DCMAKE_CXX_F
 if ! cmake --build "$BD" -j16 >"$BD.log" 2>&1; then echo "RESULT does not compile"; tail -5 "$BD.log"; git -C "$WT" checkout -q -- .; exit 1; fi
 T=$(ctest --test-dir "$BD" -j8 2>&1 | grep "tests passed")
 echo "tests with change: $T"
-# demo: compile command = all needed sources; we simply compile every src/*.cpp the demo might need
-SRCS=$(find "$WT/src" -name '*.cpp' | grep -v -e Timer -e SimpleFileLogger | tr '\n' ' ')
-build_demo() { g++ -std=c++17 -O1 -pthread -I"$WT/include" -isystem /usr/include/eigen3 "$DIR/demo.cpp" $SRCS -o "$1" 2>"$1.log"; }
+# demo: link against the library cmake just built for the changed tree, then rebuild for the clean tree
+build_demo() { g++ -std=c++17 -O1 -pthread -I"$WT/include" -isystem /usr/include/eigen3 "$DIR/demo.cpp" -L"$BD" -lromea_core_common -Wl,-rpath,"$BD" -o "$1" 2>"$1.log"; }
 build_demo /var/tmp/verif-seed-demo-mut || { echo "demo does not compile (mutated)"; head -5 /var/tmp/verif-seed-demo-mut.log; }
 timeout 300 /var/tmp/verif-seed-demo-mut >/var/tmp/verif-seed-demo-mut.out 2>&1; M=$?
 git -C "$WT" checkout -q -- .
+cmake --build "$BD" -j16 --target romea_core_common >>"$BD.log" 2>&1
 build_demo /var/tmp/verif-seed-demo-clean || { echo "demo does not compile (clean)"; head -5 /var/tmp/verif-seed-demo-clean.log; }
 timeout 300 /var/tmp/verif-seed-demo-clean >/var/tmp/verif-seed-demo-clean.out 2>&1; C=$?
 echo "demo exit with change: $M ; without: $C"
